@@ -394,3 +394,88 @@ VARIANTS += [
      "old": "        if not xfer.done() and len(xfer.chunks) == xfer.expected_chunks:\n            xfer.mark_done()",
      "new": "        if not xfer.done() and (len(xfer.chunks) == xfer.expected_chunks or packet_id.IsEOF):\n            xfer.mark_done()"},
 ]
+
+# ---------------------------------------------------------------------- round 4
+_AIS_LINK_OLD = """            if val["type"] == AssetType.LINK:
+                # For link items, there is no asset, only a linked ID.
+                val["linked_id"] = val.pop("asset_id")
+                # These don't exist either
+                val.pop("permissions", None)
+                val.pop("sale_info", None)
+        return val
+"""
+_SEG_READ_OLD = "            if key in self._templates:\n                reader = se.BufferReader(\"<\", val)\n"
+
+VARIANTS += [
+    {"name": "R10 AIS writer elides another schema field", "file": INV, "expect": "C20.R10",
+     "old": '                val.pop("sale_info", None)\n        return val\n',
+     "new": '                val.pop("sale_info", None)\n                val.pop("desc", None)\n        return val\n'},
+    {"name": "R10 elision extended to a further asset type", "file": INV, "expect": "C20.R10",
+     "old": '            if val["type"] == AssetType.LINK:\n', "new": '            if val["type"] in {AssetType.LINK, AssetType.LANDMARK}:\n'},
+    {"name": "R10 reader no longer maps the re-keyed id back", "file": INV, "expect": "C20.R10",
+     "old": '            inv_dict["asset_id"] = inv_dict.pop("linked_id")\n', "new": '            inv_dict.pop("linked_id")\n'},
+    {"name": "P R10 link shaping behind a guard clause", "file": INV, "expect": "silent",
+     "old": _AIS_LINK_OLD,
+     "new": """            if val["type"] != AssetType.LINK:
+                return val
+            # For link items, there is no asset, only a linked ID.
+            linked = val.pop("asset_id")
+            val["linked_id"] = linked
+            for gone in ():
+                pass
+            val.pop("permissions", None)
+            val.pop("sale_info", None)
+        return val
+"""},
+    {"name": "R11 reader skips unpacking when the wire value has no length", "file": MESH, "expect": "C20.R11",
+     "old": _SEG_READ_OLD, "new": "            if key in self._templates and len(val) > 0:\n                reader = se.BufferReader(\"<\", val)\n"},
+    {"name": "R11 reader unpacks under another table than the writer packs", "file": MESH, "expect": "C20.R11",
+     "old": "                new_segment[key] = reader.read(self._templates[key])",
+     "new": "                new_segment[key] = reader.read(self._fallbacks[key])"},
+    {"name": "P R11 guard-clause reader with a type guard", "file": MESH, "expect": "silent",
+     "old": _SEG_READ_OLD,
+     "new": "            if key not in self._templates or not isinstance(val, (bytes, bytearray)):\n"
+            "                new_segment[key] = val\n                continue\n"
+            "            if True:\n                reader = se.BufferReader(\"<\", val)\n"},
+    {"name": "P R2 conversions moved into one-argument helpers", "expect": "silent",
+     "edits": [{"file": SCHEMA, "old": "class SchemaFieldSerializer(abc.ABC, Generic[_T]):\n",
+                "new": "_BAR = \"|\"\n\n\ndef _epoch(d):\n    return calendar.timegm(d.utctimetuple())\n\n\n"
+                       "def _before_bar(text):\n    head = text.partition(_BAR)\n    return head[0]\n\n\n"
+                       "class SchemaFieldSerializer(abc.ABC, Generic[_T]):\n"},
+               {"file": SCHEMA, "old": "        return str(calendar.timegm(val.utctimetuple()))", "new": "        return str(_epoch(val))"},
+               {"file": SCHEMA, "old": "        return val.partition(\"|\")[0]\n", "new": "        return _before_bar(val)\n"},
+               {"file": SCHEMA, "old": "        return val + \"|\"", "new": "        return val + \"\" + _BAR"}]},
+    {"name": "R2 helper converts through local time", "expect": "C20.R2",
+     "edits": [{"file": SCHEMA, "old": "class SchemaFieldSerializer(abc.ABC, Generic[_T]):\n",
+                "new": "def _from_epoch(n):\n    return dt.datetime.fromtimestamp(n)\n\n\nclass SchemaFieldSerializer(abc.ABC, Generic[_T]):\n"},
+               {"file": SCHEMA, "old": "        return dt.datetime.utcfromtimestamp(val)", "new": "        return _from_epoch(val)"}]},
+    {"name": "P R3 AIS renames from a class-level table applied in a loop", "expect": "silent",
+     "edits": [{"file": INV, "old": "    VERSION_NONE: ClassVar[int] = -1\n",
+                "new": "    VERSION_NONE: ClassVar[int] = -1\n    _AIS_KEYS: ClassVar[Dict[str, str]] = "
+                       "{\"preferred_type\": \"type_default\", \"owner_id\": \"agent_id\", \"cat_id\": \"category_id\"}\n"},
+               {"file": INV, "old": '            fields["type_default"] = fields.pop("preferred_type")\n            fields["agent_id"] = fields.pop("owner_id")\n'
+                                    '            fields["category_id"] = fields.pop("cat_id")\n',
+                "new": "            for old_key, new_key in cls._AIS_KEYS.items():\n                fields[new_key] = fields.pop(old_key)\n"}]},
+    {"name": "R3 rename table names a key that is not in the table", "expect": "C20.R3",
+     "edits": [{"file": INV, "old": "    VERSION_NONE: ClassVar[int] = -1\n",
+                "new": "    VERSION_NONE: ClassVar[int] = -1\n    _AIS_KEYS: ClassVar[Tuple[Tuple[str, str], ...]] = "
+                       "((\"pref_type\", \"type_default\"), (\"owner_id\", \"agent_id\"), (\"cat_id\", \"category_id\"))\n"},
+               {"file": INV, "old": '            fields["type_default"] = fields.pop("preferred_type")\n            fields["agent_id"] = fields.pop("owner_id")\n'
+                                    '            fields["category_id"] = fields.pop("cat_id")\n',
+                "new": "            for old_key, new_key in cls._AIS_KEYS:\n                fields[new_key] = fields.pop(old_key)\n"}]},
+]
+
+# ---------------------------------------------------------------------- R10 class-invariant refinement
+VARIANTS += [
+    {"name": "R10 a construction site builds a category of another type", "file": INV, "expect": "C20.R10",
+     "old": '            name=block["Name"],\n            type=AssetType.CATEGORY,\n',
+     "new": '            name=block["Name"],\n            type=AssetType.OBJECT,\n'},
+    {"name": "R10 reader restores another constant than the constructions use", "file": INV, "expect": "C20.R10",
+     "old": '            inv_dict["type"] = AssetType.CATEGORY\n', "new": '            inv_dict["type"] = AssetType.OBJECT\n'},
+    {"name": "P R10 keyword order changed and a further CATEGORY construction", "file": INV, "expect": "silent",
+     "old": '            name=block["Name"],\n            type=AssetType.CATEGORY,\n        )\n',
+     "new": '            type=AssetType.CATEGORY,\n            name=block["Name"],\n        )\n\n'
+            '    @classmethod\n    def make_empty(cls, label: str):\n'
+            '        return cls(cat_id=UUID.random(), parent_id=UUID.ZERO, pref_type=FolderType.NONE, name=label,\n'
+            '                   type=AssetType.CATEGORY)\n'},
+]
